@@ -3,10 +3,10 @@ LEVEL = "model_checking"
 MIRSYM = "C05"
 BOUNDS = ("one push / method-notification / unsubscribe step from tables built by real operations with <= 2 (quick) / 3 (thorough) items, ids any pairwise-different u64, "
           "server-chosen subscription ids arbitrary, channel outcome (delivered / full / closed) solver-chosen; arrays of 1..2 (quick) / 1..3 (thorough) elements with every "
-          "parser outcome; Subscription::close_reason for every (lagged, closed); every path of Subscription::unsubscribe; read_task with 2 follow-up messages from every resume point")
+          "parser outcome; Subscription::close_reason for every (lagged, closed); every path of Subscription::unsubscribe; read_task with 2 follow-up messages from every resume point; the routing step from a table with an active subscription and a pending subscribe whose answer carries any subscription id (also the one in use)")
 EXPLANATION = ("Symbolic execution of the rustc MIR of process_subscription_response, SubscriptionSender::send, process_notification, build_unsubscribe_message and "
                "handle_recv_message: z3 decides that a notification reaches exactly the channel of the subscription it names, that full/closed channels trigger exactly one "
-               "unsubscribe naming that id, and that array elements are each classified from their own text and never skipped; close_reason reports Lagged whenever the subscription lagged; the explicit unsubscribe awaits queue capacity (send, never try_send) exactly once. Follow-up messages of the receive path await queue capacity instead of being dropped when the queue is full.")
+               "unsubscribe naming that id, and that array elements are each classified from their own text and never skipped; close_reason reports Lagged whenever the subscription lagged; the explicit unsubscribe awaits queue capacity (send, never try_send) exactly once. Follow-up messages of the receive path await queue capacity instead of being dropped when the queue is full. A subscribe answered with a subscription id already in use does not take over the earlier subscription (reverse index invariant, shared with C03).")
 TRUSTED = ["rustc MIR dump", "z3 / cvc5", "HashMap / tokio mpsc try_send / Vec contracts (coverage.models)", "serde_json parsers (uninterpreted)"]
 OUTSIDE = ["which of drop-time try_send and a racing queue slot wins (tokio channel race; the later-notification path is covered)", "stream polling order inside tokio's mpsc", "the subscribe/close life cycle (C18)"]
 ASSUMPTIONS = []
